@@ -148,8 +148,18 @@ class T(ast.NodeTransformer):
         if fn is None:
             return node
         for n in ast.walk(ast.Module(body=node.body, type_ignores=[])):
-            if isinstance(n, (ast.Break, ast.Continue, ast.Return, ast.Yield, ast.YieldFrom, ast.Await, ast.Global, ast.Nonlocal)):
+            if isinstance(n, (ast.Break, ast.Return, ast.Yield, ast.YieldFrom, ast.Await, ast.Global, ast.Nonlocal)):
                 return node
+        # `continue` of THIS loop ends the body for the current element: it becomes `return` of the body function
+        # (a continue inside a nested loop belongs to that loop and is left alone)
+        class _Cont(ast.NodeTransformer):
+            def visit_For(self, n):
+                return n
+
+            visit_While = visit_AsyncFor = visit_FunctionDef = visit_AsyncFunctionDef = visit_Lambda = visit_ClassDef = visit_For
+
+            def visit_Continue(self, n):
+                return ast.copy_location(ast.Return(value=None), n)
         assigned = set()
         for n in ast.walk(ast.Module(body=node.body, type_ignores=[])):
             if isinstance(n, ast.Name) and isinstance(n.ctx, (ast.Store, ast.Del)):
@@ -175,7 +185,7 @@ class T(ast.NodeTransformer):
             return node
         self.loop_no += 1
         name = f"__pyvc_body_{self.loop_no}"
-        body = [self._fix_super(b) for b in node.body]
+        body = [self._fix_super(_Cont().visit(b)) for b in node.body]      # only now: the loop IS being rewritten
         if isinstance(node.target, ast.Name):
             argname = node.target.id
         else:
@@ -282,17 +292,14 @@ def parse_file(path: str) -> ast.AST:
         RENAMES.update(ren)
         RENAME_NOTES[:] = notes
     tree = ast.parse(open(path, encoding="utf-8").read(), path)
-    if RENAMES:
-        from . import alpha
-        tree = alpha.Rename(RENAMES).visit(tree)
-    return tree
+    from . import alpha
+    return alpha.normalise(tree, path, os.path.join(repo_root(), "src"), RENAMES)
 
 
 def transform_source(src: str, modname: str, filename: str):
     tree = ast.parse(src, filename)
-    if RENAMES:
-        from . import alpha
-        tree = alpha.Rename(RENAMES).visit(tree)
+    from . import alpha
+    tree = alpha.normalise(tree, filename, os.path.join(repo_root(), "src"), RENAMES)
     tree = T(modname).visit(tree)
     imp = ast.Import(names=[ast.alias(name="vf.rt", asname="__pyvc__")])
     # after docstring / __future__ imports
